@@ -12,7 +12,7 @@ VERIF = os.path.dirname(os.path.dirname(os.path.abspath(__file__)))
 # own build output, so that /repo itself and the committed evidence are never touched
 REPO = os.environ.get("MATRIX_WT", "/tmp/matrix-wt")
 SCRATCH = os.environ.get("MATRIX_SCRATCH", "/tmp/matrix-scratch")
-EXTRA = {"C13b-1": ["C14"], "C02c-1": ["C05"], "C02c-2": ["C05"], "C11c-1": ["C19"], "C09c-2": ["C10"], "C06c-1": ["C16"], "C03c-2": ["C09"], "C02-1": ["C05"], "C02-2": ["C04"], "C13-1": ["C14"], "C04-1": [], "C02b-1": ["C03", "C04", "C05"], "C02b-2": ["C03", "C04", "C05"]}
+EXTRA = {"C13b-1": ["C14"], "C13c-2": ["C14"], "C02c-1": ["C05"], "C02c-2": ["C05"], "C11c-1": ["C19"], "C09c-2": ["C10"], "C06c-1": ["C16"], "C03c-2": ["C09"], "C02-1": ["C05"], "C02-2": ["C04"], "C13-1": ["C14"], "C04-1": [], "C02b-1": ["C03", "C04", "C05"], "C02b-2": ["C03", "C04", "C05"]}
 
 
 def sh(*a, **kw):
